@@ -211,8 +211,8 @@ func classifyBlocking(c *Ctx, op eng.BlockOp) blockClass {
 						if !eng.Mentions(l.Info(), l.Body, wg) {
 							continue
 						}
-						_, isGo := p.Parent(p.Parent(l.Lit)).(*ast.GoStmt)
-						if call, isCall := p.Parent(l.Lit).(*ast.CallExpr); isCall && eng.CalleeName(g.Info(), call) == "(*sync.WaitGroup).Go" {
+						isGo := l.IsSpawned()
+						if call, isCall := p.Parent(l.Lit).(*ast.CallExpr); l.Lit != nil && isCall && eng.CalleeName(g.Info(), call) == "(*sync.WaitGroup).Go" {
 							n++
 							continue
 						}
@@ -397,7 +397,7 @@ func runC03(c *Ctx) {
 		nspawn := 0
 		okOnce := true
 		for _, l := range g.Lits {
-			if _, isGo := p.Parent(p.Parent(l.Lit)).(*ast.GoStmt); !isGo {
+			if isGo := l.IsSpawned(); !isGo {
 				continue
 			}
 			var sl []eng.Loc
@@ -560,7 +560,7 @@ func runC03(c *Ctx) {
 			})
 			c.Anchor(out != nil, "%s: out channel not found", fn)
 			for _, l := range f.Lits {
-				if _, isGo := p.Parent(p.Parent(l.Lit)).(*ast.GoStmt); isGo && eng.Mentions(info, l.Body, out) {
+				if isGo := l.IsSpawned(); isGo && eng.Mentions(info, l.Body, out) {
 					deferClose(l, out, "the value stream")
 				}
 			}
@@ -593,7 +593,7 @@ func runC03(c *Ctx) {
 			})
 			c.Check(K(f.Name, "two channels"), f.Pos(), len(chans) == 2, "getValues hands out a value and a lookup-result channel", "found "+itoa(len(chans)))
 			for _, l := range f.Lits {
-				if _, isGo := p.Parent(p.Parent(l.Lit)).(*ast.GoStmt); !isGo {
+				if isGo := l.IsSpawned(); !isGo {
 					continue
 				}
 				for _, ch := range chans {
